@@ -388,6 +388,14 @@ func progDefaults() *Program {
 	add("ici", T(I32), lConst(iInt), "const-ref-include")
 	add("ics", T(String), lConst(iStr2), "const-ref-chain-include")
 	add("ice", RefE(iCol), lConst(iFav), "const-ref-enum-include")
+	// ONE constant as the default of fields of several types (each field encodes it in its own type)
+	add("ici", T(I64), lConst(iInt), "const-ref-include,shared-by-fields-of-other-types")
+	add("ici", T(I16), lConst(iInt), "const-ref-include,shared-by-fields-of-other-types")
+	add("ici", T(Byte), lConst(iInt), "const-ref-include,shared-by-fields-of-other-types")
+	add("ici", T(Double), lConst(iInt), "const-ref-include,shared-by-fields-of-other-types")
+	add("ici", T(I32), lConst(iInt), "const-ref-include,shared-by-fields-of-other-types")
+	add("cl", T(Double), lConst(cI64), "const-ref,shared-by-fields-of-other-types")
+	add("cl", T(I64), lConst(cI64), "const-ref,shared-by-fields-of-other-types")
 	// enums
 	add("e", RefE(e), lEnum(e, "SEVEN"), "enum-ref")
 	add("e", RefE(e), lEnum(e, "NEG"), "enum-ref")
